@@ -147,7 +147,7 @@ def main():
     for res in core.parallel(dispatch, specs):
         chk.absorb(res)
     chk.finish(RULE, floor={"runs:debug": 60, "runs:release": 30, "scripts:debug": 30000, "scripts:release": 30000, "hostile_fields": 2000},
-               assumptions=["chains are otherwise valid (canonical CompactSize, coinbase has outputs, heights below 64*210000)",
+               assumptions=["chains are otherwise valid (canonical CompactSize, coinbase has outputs)",
                             "debug profile = overflow/bounds checks on: the relevant 'sanitizer' for this safe-Rust code base"])
 
 
